@@ -10,7 +10,7 @@ language (README section 5 / the comments of p0f.fp), not from db_parse.rs:
   (which scans left to right with ordered alternatives);
 * the grammar of canonical lines (`CanonTcp`, `CanonHttp`): declarative, as concatenations;
 * the abstract document type `Doc`, its rendering and what loading it must yield (`flatten`);
-* the known-finding classes `KF.C06.*`.
+* (the three known-finding classes `KF.C06.*` of the first round are gone: the defects were fixed in /repo).
 -/
 namespace Huginn.SigText.Spec
 open Huginn.Sig Huginn.SigText
@@ -82,31 +82,6 @@ instance (s : HttpSigL) : Decidable (WFHttpL s) :=
 
 def WFHttp (s : HttpSig) : Prop := WFHttpL (.ofSig s)
 instance (s : HttpSig) : Decidable (WFHttp s) := by unfold WFHttp; exact inferInstance
-
-/-! ### known-finding classes -/
-end Huginn.SigText.Spec
-
-namespace Huginn.KF.C06
-open Huginn.Sig Huginn.SigText
-
-/-- an HTTP signature whose `horder` is empty prints `v:::sw` and re-parses with one header whose
-name is empty (`separated_list1` + a header parser that accepts the empty string) -/
-def httpEmptyHorder (s : HttpSigL) : Prop := s.horder = []
-instance (s : HttpSigL) : Decidable (httpEmptyHorder s) := by unfold httpEmptyHorder; exact inferInstance
-
-/-- the text contains `?` followed by a digit run whose value exceeds 255: not an option kind of the
-vocabulary, yet `parse_tcp_option` reads it as `?0` (`unwrap_or(0)`) -/
-def unknownKindOverflowB : Str → Bool
-  | [] => false
-  | c :: cs => (c == '?' && !(cs.takeWhile Char.isDigit).isEmpty && decide (decVal (cs.takeWhile Char.isDigit) > 255))
-      || unknownKindOverflowB cs
-def unknownKindOverflow (t : Str) : Prop := unknownKindOverflowB t = true
-instance : DecidablePred unknownKindOverflow := fun t => by unfold unknownKindOverflow; exact inferInstance
-
-end Huginn.KF.C06
-
-namespace Huginn.SigText.Spec
-open Huginn.Sig Huginn.SigText
 
 /-! ### reference reader of TCP signature text (split at `:` and `,`, field by field) -/
 
@@ -374,7 +349,7 @@ instance (s : Str) : Decidable (alnum1 s) := by unfold alnum1; exact inferInstan
 def alpha1P (s : Str) : Prop := s ≠ [] ∧ ∀ c ∈ s, c.isAlpha = true
 instance (s : Str) : Decidable (alpha1P s) := by unfold alpha1P; exact inferInstance
 
-/-- a `ua_os` rule of the p0f format: a name, optionally `=[text]` -/
+/-- a `ua_os` rule of the p0f format: a name (anything without `,` `=`, e.g. `Mac OS X`), optionally `=[text]` -/
 def WFRule (r : Str × Option Str) : Prop :=
   r.1 ≠ [] ∧ (∀ c ∈ r.1, c ≠ ',' ∧ c ≠ '=' ∧ c ≠ '\n') ∧
   (∀ c ∈ r.1.head?, isWs c = false) ∧ (∀ c ∈ r.1.getLast?, isWs c = false) ∧
@@ -418,37 +393,6 @@ structure WFDoc (d : Doc) : Prop where
 
 end Huginn.SigText.Spec
 
-namespace Huginn.KF.C06
-open Huginn.SigText Huginn.SigText.Spec
-
-/-- a `ua_os` rule the loader cannot read: `parse_ua_os` only takes alphanumeric names (and
-`name=alnum`, which is not the p0f syntax), stops at the first other rule and ignores the rest of the line -/
-def ruleUnreadable (r : Str × Option Str) : Prop := r.2.isSome = true ∨ ¬ alnum1 r.1
-instance (r : Str × Option Str) : Decidable (ruleUnreadable r) := by unfold ruleUnreadable; exact inferInstance
-
-def miscUnreadable : Misc → Prop
-  | .uaOs _ rs => ∃ r ∈ rs, ruleUnreadable r
-  | _ => False
-instance : DecidablePred miscUnreadable := fun m => by cases m <;> (unfold miscUnreadable; exact inferInstance)
-
-def uaOsLossy (d : Doc) : Prop := ∃ m ∈ allMiscs d, miscUnreadable m
-instance (d : Doc) : Decidable (uaOsLossy d) := by unfold uaOsLossy; exact inferInstance
-
-/-- the document contains an HTTP signature of the class `httpEmptyHorder` -/
-def itemEmptyHorder : Item LabelL HttpSigL → Prop
-  | .sig _ s => httpEmptyHorder s
-  | _ => False
-instance : DecidablePred itemEmptyHorder := fun it => by
-  cases it <;> (unfold itemEmptyHorder; exact inferInstance)
-def sectionEmptyHorder : Section → Prop
-  | .http _ _ _ items => ∃ it ∈ items, itemEmptyHorder it
-  | _ => False
-instance : DecidablePred sectionEmptyHorder := fun s => by
-  cases s <;> (unfold sectionEmptyHorder; exact inferInstance)
-def docEmptyHorder (d : Doc) : Prop := ∃ s ∈ d.sections, sectionEmptyHorder s
-instance (d : Doc) : Decidable (docEmptyHorder d) := by unfold docEmptyHorder; exact inferInstance
-
-end Huginn.KF.C06
 
 namespace Huginn.SigText.Spec
 open Huginn.Sig Huginn.SigText
@@ -497,9 +441,8 @@ instance (d : Str) : Decidable (CanonNum d) := by unfold CanonNum; exact inferIn
 /-- every numeral of the line is written without leading zeros -/
 def CanonNums (l : Str) : Prop := ∀ a d b, l = a ++ (d ++ b) → MaxRun a d b → CanonNum d
 
-/-- **canonical TCP signature line** (lexical, does not mention the parser): numerals without leading
-zeros, and no `?n` with n > 255 (which is not an option kind) -/
-def CanonTcp (l : Str) : Prop := CanonNums l ∧ ¬ Huginn.KF.C06.unknownKindOverflow l
+/-- **canonical TCP signature line** (lexical, does not mention the parser): numerals without leading zeros -/
+def CanonTcp (l : Str) : Prop := CanonNums l
 
 /-- decidable version of `CanonNums`, used by the driver (`canonNumsB_sound` in the lemmas) -/
 def canonNumsB (prevDigit : Bool) : Str → Bool
